@@ -239,6 +239,8 @@ def run(ctx):
     from pycaption.dfxp.base import DFXPWriter as _DW
     from pycaption.dfxp.extras import LegacyDFXPWriter as _LW
     ctx.prove("dfxp._recreate_styling_tag", styling_tag, functions=[_DW._recreate_styling_tag, _LW._recreate_styling_tag], crosscheck=False)
+    import props.C07_regions as RG
+    RG.prove_regions(ctx)             # (region= names the region of the element's own nearest layout; the clean-up keeps what was handed out)
     import props.C12 as L12
     L12.prove_alignment(ctx)          # (an alignment attribute that is written has a value: a None value is a bare attribute name)
     ctx.bounded("documents", "caption sets read from sample documents of six formats and API-built sets (texts, style values, "
